@@ -134,6 +134,16 @@ impl L1Table {
 
 impl_top_table_traits!(L1Table, L1Entry, data);
 
+#[cfg(feature = "verif-hooks")]
+impl L1Table {
+    pub fn verif_header_entries(&self) -> u32 {
+        self.header_entries
+    }
+    pub fn verif_dirty_blocks(&self) -> Vec<u32> {
+        self.dirty_blocks.borrow().iter().copied().collect()
+    }
+}
+
 impl From<Qcow2IoBuf<L1Entry>> for L1Table {
     fn from(data: Qcow2IoBuf<L1Entry>) -> Self {
         Self {
